@@ -266,3 +266,45 @@ def phi_conditions(t):
         if is_tag(x, "phi") and x[1] not in out:
             out.append(x[1])
     return out
+
+
+def selector_functions(atom):
+    """the functions of the analysed modules whose result an atom tests directly (`f(...)[0] == "yes"`): not the ones nested in arguments"""
+    out = set()
+    ops = atom[2:4] if is_tag(atom, "cmp") else (atom[1:2] if is_tag(atom, "truth") else ())
+    for t in ops:
+        while is_tag(t, "idx", "attr"):
+            t = t[1]
+        if is_tag(t, "call") and is_tag(t[1], "fn"):
+            out.add(t[1][2])
+    return out
+
+
+def root(t):
+    """what a term is at its top: kind, operator / callee, arity"""
+    if not isinstance(t, tuple) or not t:
+        return t
+    if t[0] in ("bin", "un", "cmp"):
+        return (t[0], t[1])
+    if t[0] == "call":
+        f = t[1] if not any(is_tag(x, *SOFT_TAGS) for x in subterms(t[1])) else None
+        return ("call", f, len(t[2]), tuple(k[1] for k in t[3]))
+    if t[0] in ("c", "s", "lv", "bv", "blk", "fn", "ext"):
+        return t
+    if t[0] in ("tuple", "list"):
+        return (t[0], len(t))
+    return (t[0],)
+
+
+def rigid_difference(a, b):
+    """two terms that are different computations whatever the conditionals merged inside them come out as: neither is itself a merged
+    conditional / starred sequence / unknown, and they differ at the top (another operator, another callee, another number of operands, a
+    symbol against a computation)"""
+    if is_tag(a, *SOFT_TAGS) or is_tag(b, *SOFT_TAGS):
+        return False
+    ra, rb = root(a), root(b)
+    if ra == rb:
+        return False
+    if is_tag(a, "call") and is_tag(b, "call") and (ra[1] is None or rb[1] is None):
+        return False
+    return True
